@@ -91,6 +91,79 @@ def submit_real(cls, cfg, base_schema, entry, sch, key=None):
 ENTRIES = ['ctor', 'setter', 'percall', 'setitem', 'update', 'allow_unknown']
 
 
+def submit_with(cls, cfg, entry, sch, rs, ss, where):
+    """submission of a schema with references; the definitions live in registries bound to the validator
+    (`own`), or only in the module-level registries while the validator has empty ones of its own (`elsewhere`)"""
+    from cerberus import schema_registry, rules_set_registry
+    from cerberus.schema import RulesSetRegistry, SchemaRegistry
+    real.clear_global_state()
+    cfg = copy.deepcopy(cfg)
+    rr, sr = RulesSetRegistry(), SchemaRegistry()
+    try:
+        for k, v in rs.items():
+            (rr if where == 'own' else rules_set_registry).add(k, copy.deepcopy(v))
+        for k, v in ss.items():
+            (sr if where == 'own' else schema_registry).add(k, copy.deepcopy(v))
+        cfg['rules_set_registry'], cfg['schema_registry'] = rr, sr
+        try:
+            if entry == 'ctor':
+                v = cls(copy.deepcopy(sch), **cfg)
+            elif entry == 'setter':
+                v = cls({'zz0': {'type': 'integer'}}, **cfg)
+                v.schema = copy.deepcopy(sch)
+            elif entry == 'percall':
+                v = cls({'zz0': {'type': 'integer'}}, **cfg)
+                v.validate({}, schema=copy.deepcopy(sch))
+            else:
+                v = cls({'zz0': {'type': 'integer'}}, **cfg)
+                v.schema.update(copy.deepcopy(sch))
+            return ('accepted',)
+        except SchemaError:
+            return ('schema_error',)
+        except Exception as e:
+            return ('raised', type(e).__name__)
+    finally:
+        real.clear_global_state()
+
+
+def oracle_registries(ctx, case, rng):
+    """well-formedness is judged with the registries of the validator the schema is given to, at every depth"""
+    from .. import rewrite
+    refschema, rs, ss, applied = rewrite.to_references(rng, case['schema'], p=0.5)
+    if not applied:
+        return
+    cls, cfg = real.cls_of(case), case.get('cfg', {})
+    entry = rng.choice(['ctor', 'setter', 'percall', 'update'])
+    jcase = {'schema': codec.enc_val(refschema), 'rules_sets': codec.enc_val(rs), 'schemas': codec.enc_val(ss),
+             'cfg': codec.enc_val(cfg), 'cls': case.get('cls'), 'entry': entry, 'seed': case.get('seed'), 'index': case.get('index')}
+    out = submit_with(cls, cfg, entry, refschema, rs, ss, 'own')
+    ctx.dist('registry_submission', 'own:' + out[0])
+    if out[0] != 'accepted':
+        ctx.fail('C04 oracle: a well-formed schema whose references are defined in the registries bound to the validator is not '
+                 'accepted through %s (%s)' % (entry, out), dict(jcase, registries='own'))
+        return
+    out = submit_with(cls, cfg, entry, refschema, rs, ss, 'elsewhere')
+    ctx.dist('registry_submission', 'elsewhere:' + out[0])
+    if out[0] != 'schema_error':
+        ctx.fail('C04 oracle: a schema whose references are not defined in the registries bound to the validator (only in the '
+                 'module-level ones) is %s through %s' % (out, entry), dict(jcase, registries='elsewhere'))
+        return
+    # one definition replaced by a malformed one
+    bad_rs, bad_ss = copy.deepcopy(rs), copy.deepcopy(ss)
+    names = [('rs', k) for k in rs] + [('ss', k) for k in ss]
+    which, name = names[rng.randrange(len(names))]
+    if which == 'rs':
+        bad_rs[name] = {'type': 'no_such_type_zz'}
+    else:
+        bad_ss[name] = {'f': {'no_such_rule_zz': 1}}
+    out = submit_with(cls, cfg, entry, refschema, bad_rs, bad_ss, 'own')
+    ctx.dist('registry_submission', 'malformed-definition:' + out[0])
+    if out[0] != 'schema_error':
+        ctx.fail('C04 oracle: a schema referring to a malformed definition (%s) in the registries bound to the validator is %s '
+                 'through %s' % (name, out, entry), dict(jcase, registries='own', malformed=name,
+                                                         rules_sets=codec.enc_val(bad_rs), schemas=codec.enc_val(bad_ss)))
+
+
 def model_outcome(rep):
     o = rep['outcome']
     if o == 'schema_error':
@@ -108,6 +181,8 @@ def one(ctx, drv, i, prof, case, n_corrupt):
     if cases.accepted(case) is not True:
         ctx.dist('skipped', 'generated schema not accepted')
         return
+    if i % 3 == 0:
+        oracle_registries(ctx, case, random.Random(ctx.seed * 59 + i))
     variants = [('valid', None, good)] + schemas.corruptions(rng, good, n_corrupt)
     base = {'zz0': {'type': 'integer'}}
     ct = schemas.cls_tables(cls)
@@ -124,7 +199,11 @@ def one(ctx, drv, i, prof, case, n_corrupt):
             sub = sch[key]
             if not isinstance(sub, dict):
                 continue
-        jcase = {'schema': codec.enc_val(sch), 'cfg': codec.enc_val(cfg), 'cls': case.get('cls'), 'entry': entry,
+        try:
+            esch = codec.enc_val(sch)
+        except codec.OutOfUniverse:
+            esch = {'repr': repr(sch)}      # a key outside the model's universe (e.g. a rule name that is None or a tuple)
+        jcase = {'schema': esch, 'cfg': codec.enc_val(cfg), 'cls': case.get('cls'), 'entry': entry,
                  'corruption': kind, 'position': repr(path), 'seed': case.get('seed'), 'index': case.get('index')}
         out, state = submit_real(cls, cfg, base, entry, sub if entry in ('allow_unknown',) else sch, key)
         # ---- oracle
@@ -148,6 +227,9 @@ def one(ctx, drv, i, prof, case, n_corrupt):
                 ctx.fail('C04 oracle: after a rejected submission through %s the validator raises %s on a document'
                          % (entry, REPEAT['use'][1]), jcase)
         # ---- port
+        if 'repr' in esch:
+            ctx.cov['out_of_domain'] += 1
+            continue
         if entry in ('ctor', 'setter', 'percall'):
             entries = [{'entry': 'whole', 'schema': codec.enc_val(sch)}]
         elif entry == 'setitem':
